@@ -1841,6 +1841,9 @@ impl TypeChecker {
 
             (Type::Tuple(a), Type::Tuple(b)) if a.len() == b.len() => {
                 for (a, b) in a.iter().zip(b.iter()) {
+                    // The elements need the constraint as well - they might be unknown for now.
+                    self.add_constraint(*a, span, Constraint::Add(*b));
+                    self.add_constraint(*b, span, Constraint::Add(*a));
                     self.add(span, ctx, *a, *b)?;
                 }
                 Ok(())
@@ -1866,6 +1869,9 @@ impl TypeChecker {
 
             (Type::Tuple(a), Type::Tuple(b)) if a.len() == b.len() => {
                 for (a, b) in a.iter().zip(b.iter()) {
+                    // The elements need the constraint as well - they might be unknown for now.
+                    self.add_constraint(*a, span, Constraint::Sub(*b));
+                    self.add_constraint(*b, span, Constraint::Sub(*a));
                     self.sub(span, ctx, *a, *b)?;
                 }
                 Ok(())
@@ -1891,6 +1897,9 @@ impl TypeChecker {
 
             (Type::Tuple(a), Type::Tuple(b)) if a.len() == b.len() => {
                 for (a, b) in a.iter().zip(b.iter()) {
+                    // The elements need the constraint as well - they might be unknown for now.
+                    self.add_constraint(*a, span, Constraint::Mul(*b));
+                    self.add_constraint(*b, span, Constraint::Mul(*a));
                     self.mul(span, ctx, *a, *b)?;
                 }
                 Ok(())
@@ -1924,6 +1933,9 @@ impl TypeChecker {
 
             (Type::Tuple(a), Type::Tuple(b)) if a.len() == b.len() => {
                 for (a, b) in a.iter().zip(b.iter()) {
+                    // The elements need the constraint as well - they might be unknown for now.
+                    self.add_constraint(*a, span, Constraint::DivTop(*b));
+                    self.add_constraint(*b, span, Constraint::DivBot(*a));
                     self.div(span, ctx, *a, *b)?;
                 }
                 Ok(())
@@ -2006,6 +2018,9 @@ impl TypeChecker {
 
             (Type::Tuple(a), Type::Tuple(b)) if a.len() == b.len() => {
                 for (a, b) in a.iter().zip(b.iter()) {
+                    // The elements need the constraint as well - they might be unknown for now.
+                    self.add_constraint(*a, span, Constraint::Cmp(*b));
+                    self.add_constraint(*b, span, Constraint::Cmp(*a));
                     self.cmp(span, ctx, *a, *b)?;
                 }
                 Ok(())
